@@ -162,4 +162,15 @@ example : ∀ i ∈ opIds (.derive 2 .slice), valOf (run H0 init hA) i = valOf (
   have d : ((run H0 init hA).obj 2).kind = ((run H0 init hB).obj 3).kind := by decide +kernel
   rw [a, b, c, d]; rfl
 
+/-! The invariant has bite: a heap in which a slice shares a cell's bit container - what `begin_parse` WITHOUT the
+`bits.copy()` would create - violates `Sep`, and one load on that slice then changes the cell's data bits. -/
+def bad : State :=
+  let σ := run H0 init hA
+  σ.push { ObjRec.blank with tag := .slice, bitsId := (σ.obj 2).bitsId, refsId := (σ.obj 2).refsId }
+example : ¬ Sep bad := by
+  intro h
+  exact h.sepB 3 2 (by decide +kernel) (by decide +kernel) (by decide) (by decide +kernel) (by decide +kernel) (by decide +kernel)
+example : (step H0 bad (.dropBits 3 2 false)).1.bitsOf 2 = [true, true, false] ∧ bad.bitsOf 2 = [true, false, true, true, false] := by
+  decide +kernel
+
 end TonVerif.Properties.C08
